@@ -39,15 +39,15 @@ TRUSTED = [
     "C04 two threads (harness/props/c04_preempt.py): sys.settrace baton scheduler; scheduling points = every line of process_iter (+ inner add/remove), of the cache_clear lambda and of Process.is_running, every bytecode of those that loads/stores _pmap or _pids_reused and the bytecode after it, entry and _get_ident line of Process._init, item boundaries of the consumer loop; all schedules with <= 2 pre-emptions (thorough; with kernel events on a 1/6 sub-lattice) and item-boundary schedules with 3 pre-emptions; every-bytecode granularity is sampled only; more than two pre-emptions / more than two threads are not explored",
 ]
 MANIFEST = {
-    "level_text": "Machine-checked Lean 4 proofs over a model of pids()/pid_exists()/process_iter()/cache_clear()/is_running()'s cache side effect. For every table: pids() is the strictly ascending list of exactly the listed PIDs (C04_pids_sorted_exact, C04_pids_unique; byte level: C04_listing_exact); pid_exists(n) is a bool, True exactly for listed PIDs, for every int n and every well-formed table with threads, foreign processes and broken status files (C04_pidExists_iff). For EVERY history, overlapping generators and both prologue orders included: each generator yields strictly ascending PIDs without duplicates, all from the listing it took, and next() can only yield/stop/raise ValueError (invalid attrs)/IndexError (empty table) (C04_iter_ascending, C04_overlap_safety, C04_yield_was_listed); each next() visits the remaining listed PIDs in order and skips a PID only if it vanished (C04_iter_each_listed_once at full strength for the repaired prologue order, C04_iter_each_listed_once_partial for the current code when no PID is flagged at the start of the iteration); info keys are exactly the requested names (C04_info_keys). For every SEQUENTIAL history the whole output trace of the model — PIDs, object identities, info keys — equals that of a shared-cache specification machine (C04_refines_sequential, by an abstraction function), whose cache keeps an entry iff its PID is still listed and not flagged, yields the cached object else a fresh one, and is emptied by cache_clear (C04_start_cache, C04_spec_visit, C04_isRunning_flags, C04_cache_clear). The platform functions are covered branch by branch: _psposix.pid_exists (PID 0, ESRCH, EPERM, ok, OverflowError: C04_posix_pidExists_branches), _pslinux.pid_exists called on its own with ANY table changes between the kill probe and the status read (C04_linux_pidExists_linearizable: the answer is right for the table at the probe or at the read; C04_linux_pidExists_iff without changes; C04_platform_eq ties them to the front-end model); bool arguments are ints (C04_pidExists_bool), floats are pinned as outside the statement (C04_pidExists_float: TypeError for positive floats). as_dict's ad_value substitution: keys exactly the requested names, ad_value exactly where the getter raises AccessDenied/ZombieProcess (C04_asdict_ad_value). Two threads in the prologue's drain loop: C04_drain_race_counterexample (KeyError with the unguarded pop) and C04_drain_guarded_safe (no KeyError, no flag lost, every schedule, for the guarded pop). Proved counterexamples (replayed on the real code): L4 OverflowError for the pre-fix pid_exists, L19 flagged PID skipped, overlapping generators, cache_clear while suspended, ppid reuse check, the _pids_reused.pop() race of two threads (the last five are known findings; the race has a proposed fix). Tied to the code by translator facts (range guard, prologue order, valid/access-free/reuse-checking attr names) feeding cfg_good and the model the driver runs, and by a differential run of the real functions over a fake procfs incl. exhaustive short histories, the complete pid_exists table (front-end, both platform functions, windows between probe and read, bool/float arguments), attrs=[] (all names) on a complete fake /proc/<pid> with EACCES injection, and a deterministic bounded-pre-emption exploration of two threads using process_iter()/cache_clear()/is_running() at once (oracle from the statement; item-boundary schedules are also run through the Lean model, drain-loop steps through the Lean drain model).",
-    "level_note": "Partial: two threads: theorems cover the generator-level interleavings (Op.next of several generators) and the drain loop; finer interleavings are explored (<= 2 pre-emptions at line/shared-bytecode granularity), not proved. Identity is proved for sequential histories only (overlaps, cache_clear while suspended, ppid+recycled PID, flagged PID at iteration start are known findings with proved counterexamples); completeness is stated per next(). Trusted: Lean kernel + {propext, Classical.choice, Quot.sound}; the translator; the correspondence harness; atomicity (table changes between psutil's OS accesses and right after the listing); CPython generator finalisation and set iteration order; as_dict modelled by attribute kind.",
+    "level_text": "Machine-checked Lean 4 proofs over a model of pids()/pid_exists()/process_iter()/cache_clear()/is_running()'s cache side effect. For every table: pids() is the strictly ascending list of exactly the listed PIDs (C04_pids_sorted_exact, C04_pids_unique; byte level: C04_listing_exact); pid_exists(n) is a bool, True exactly for listed PIDs, for every int n and every well-formed table with threads, foreign processes and broken status files (C04_pidExists_iff). For EVERY history, overlapping generators and both prologue orders included: each generator yields strictly ascending PIDs without duplicates, all from the listing it took, and next() can only yield/stop/raise ValueError (invalid attrs)/IndexError (empty table) (C04_iter_ascending, C04_overlap_safety, C04_yield_was_listed); each next() visits the remaining listed PIDs in order and skips a PID only if it vanished (C04_iter_each_listed_once at full strength for the repaired prologue order, C04_iter_each_listed_once_partial for the current code when no PID is flagged at the start of the iteration); info keys are exactly the requested names (C04_info_keys). For every SEQUENTIAL history the whole output trace of the model — PIDs, object identities, info keys — equals that of a shared-cache specification machine (C04_refines_sequential, by an abstraction function), whose cache keeps an entry iff its PID is still listed and not flagged, yields the cached object else a fresh one, and is emptied by cache_clear (C04_start_cache, C04_spec_visit, C04_isRunning_flags, C04_cache_clear). The platform functions are covered branch by branch: _psposix.pid_exists (PID 0, ESRCH, EPERM, ok, OverflowError: C04_posix_pidExists_branches), _pslinux.pid_exists called on its own with ANY table changes between the kill probe and the status read (C04_linux_pidExists_linearizable: the answer is right for the table at the probe or at the read; C04_linux_pidExists_iff without changes; C04_platform_eq ties them to the front-end model); bool arguments are ints (C04_pidExists_bool), floats are pinned as outside the statement (C04_pidExists_float: TypeError for positive floats). as_dict's ad_value substitution: keys exactly the requested names, ad_value exactly where the getter raises AccessDenied/ZombieProcess (C04_asdict_ad_value). Two threads in the prologue's drain loop: C04_drain_race_counterexample (KeyError with the unguarded pop of the code as found) and C04_drain_guarded_safe (no KeyError, no flag lost, every schedule, for the guarded pop); the code now has the guarded pop (fix 4d302c5), pinned by the obligation cfg_pop_guarded. Proved counterexamples (replayed on the real code): L4 OverflowError for the pre-fix pid_exists, L19 flagged PID skipped, overlapping generators, cache_clear while suspended, ppid reuse check (these last four are the known findings C04-flagged-pid-skipped, C04-overlap-identity, C04-clear-while-suspended, C04-reuse-check-skips-pid), and the _pids_reused.pop() race of two threads for the unguarded pop (fixed in /repo by 4d302c5). Tied to the code by translator facts (range guard, prologue order, valid/access-free/reuse-checking attr names) feeding cfg_good and the model the driver runs, and by a differential run of the real functions over a fake procfs incl. exhaustive short histories, the complete pid_exists table (front-end, both platform functions, windows between probe and read, bool/float arguments), attrs=[] (all names) on a complete fake /proc/<pid> with EACCES injection, and a deterministic bounded-pre-emption exploration of two threads using process_iter()/cache_clear()/is_running() at once (oracle from the statement; item-boundary schedules are also run through the Lean model, drain-loop steps through the Lean drain model).",
+    "level_note": "Partial: two threads: theorems cover the generator-level interleavings (Op.next of several generators) and the drain loop; finer interleavings are explored (<= 2 pre-emptions at line/shared-bytecode granularity), not proved. Identity is proved for sequential histories only (overlaps, cache_clear while suspended, ppid+recycled PID, flagged PID at iteration start are the four known findings, with proved counterexamples; the _pids_reused.pop() race found in the same round is fixed by 4d302c5); completeness is stated per next(). Trusted: Lean kernel + {propext, Classical.choice, Quot.sound}; the translator; the correspondence harness; atomicity (table changes between psutil's OS accesses and right after the listing); CPython generator finalisation and set iteration order; as_dict modelled by attribute kind.",
     "technique": "Lean 4 generator state machine + refinement to a shared-cache specification by an abstraction function, invariants by induction over histories, translator-fed proof obligation, differential correspondence over a fake procfs with exhaustive short histories, bounded-pre-emption schedule exploration of real threads (sys.settrace baton scheduler) tied to the Lean model at item granularity",
     "design_ref": "DESIGN.md §5 C04",
 }
 ASSUMPTIONS = [
     "process table is well formed: one entry per PID, thread ids distinct from PIDs, every id fits pid_t; entries of the procfs root that are not PIDs are not all-digit names",
     "a PID recycled within one clock tick (same start time) is indistinguishable from the old process (psutil's documented assumption)",
-    "the identity statements are proved for sequential histories (at most one suspended generator, cache_clear() only while none is suspended, no attrs name that starts with _raise_if_pid_reused, no PID flagged by is_running() at the moment an iteration starts — the last one only for the current prologue order); outside that region see the known findings",
+    "the identity statements are proved for sequential histories (at most one suspended generator, cache_clear() only while none is suspended, no attrs name that starts with _raise_if_pid_reused, no PID flagged by is_running() at the moment an iteration starts — the last one only for the current prologue order); outside that region see the four known findings C04-overlap-identity, C04-clear-while-suspended, C04-reuse-check-skips-pid, C04-flagged-pid-skipped",
     "the process table is never empty when psutil lists it (the calling process exists); on an empty table pids()/pid_exists(0)/process_iter() raise IndexError (modelled, no promise in the spec)",
 ]
 
